@@ -16,7 +16,7 @@ ARGS = {
     ("C18", "quick"): ["-modes", "grid,random", "-random", "300"],
     ("C18", "thorough"): ["-modes", "grid,random", "-random", "8000", "-depth", "4"],
 }
-PRIORITY = ["KModel", "KErr", "KFwd", "KBytes", "KDoc", "KSignIn", "KOther", "KFrame", "KLine", "KParse", "KFields", "KSer", "KIndent", "KDecode", "KLww", "KFresh"]
+PRIORITY = ["KModel", "KErr", "KFwd", "KBytes", "KDoc", "KSignIn", "KStoredMutated", "KOther", "KFrame", "KLine", "KParse", "KFields", "KSer", "KIndent", "KDecode", "KLww", "KFresh"]
 MEANING = {
     "KModel": "harness defect: generated value outside the model's grammar",
     "KErr": "an error is returned where the model returns none, or the reverse",
@@ -24,6 +24,7 @@ MEANING = {
     "KBytes": "the bytes stored under json differ from Json.render of the envelope",
     "KDoc": "the stored cloudevents document differs from the model's document (or is stored / not stored contrary to the model)",
     "KSignIn": "the signer was not called with exactly the unsigned document, or was called for an unlisted type",
+    "KStoredMutated": "the value stored under the format changed after Process had returned, once later events were formatted",
     "KOther": "an entry of the format table that must not change changed",
     "KFrame": "the event's type, time or payload was altered",
     "KLine": "the stored value is not one newline-terminated line",
@@ -133,7 +134,7 @@ def run(ctx):
     first = {}
     drift = {}
     for cid, ms in by_case.items():
-        ms.sort(key=lambda m: (m[0], PRIORITY.index(m[2]) if m[2] in PRIORITY else 99))
+        ms.sort(key=lambda m: (PRIORITY.index(m[2]) if m[2] in PRIORITY else 99, m[0]))
         real = [m for m in ms if m[2] not in DRIFT]
         if not real:
             drift[cid] = ms
@@ -151,6 +152,7 @@ def run(ctx):
             "kind": "correspondence", "engine": drv,
             "theorem_or_correspondence": "%s.mismatches (model vs real node, and the property's oracle on the observation)" % RUNFILE[prop],
             "signature": sig, "on": on, "meaning": MEANING.get(sig, ""),
+            "later_process_calls_until_the_stored_value_changed": next((s_ for s_, o, k in ms if k == "KStoredMutated"), None),
             "all_mismatches_of_case": [{"step": s_, "on": NODE[prop].get(o, o), "kind": k} for s_, o, k in ms],
             "case": c, "cases_failing_first_with_this_kind": affected, "cases_failing_in_any_way": len(by_case),
             "repro": "bin/check replay <this file>"})
